@@ -162,8 +162,14 @@ class BaseStorer(ABC):
             )
         ).astype(int)
 
-        # Adjust event_number for the parts that originally belonged to other
-        combined_num_output_per_event[self.num_events_ :, 0] += self.num_events_
+        # Continue the event numbering of self in the part that originally
+        # belonged to other
+        if self.num_events_ > 0 and other.num_events_ > 0:
+            combined_num_output_per_event[self.num_events_ :, 0] += (
+                combined_num_output_per_event[self.num_events_ - 1, 0]
+                + 1
+                - combined_num_output_per_event[self.num_events_, 0]
+            )
 
         combined_storer: BaseStorer = self.__class__.__new__(self.__class__)
         combined_storer.__dict__.update(
